@@ -355,6 +355,7 @@ type histEnv struct {
 	txs    []fs_db.Tx // handle number -> tx (index 0 unused)
 	shas   map[[32]byte]uint64
 	closed bool // closed by "closedb", to be opened again at its next use
+	txMu   sync.Mutex
 }
 
 func (e *histEnv) open() error {
@@ -374,6 +375,8 @@ func (e *histEnv) store(h int) (fs_db.Store, bool) {
 	if h == 0 {
 		return e.h.DB, true
 	}
+	e.txMu.Lock()
+	defer e.txMu.Unlock()
 	if h < len(e.txs) && e.txs[h] != nil {
 		return e.txs[h], true
 	}
@@ -404,6 +407,8 @@ func (e *histEnv) step(t []string) (res string) {
 		default:
 			tx, err = e.h.DB.Begin(ctx, fs_db.IsoLevelSerializable)
 		}
+		e.txMu.Lock()
+		defer e.txMu.Unlock()
 		if err != nil {
 			e.txs = append(e.txs, nil)
 			return errClass(err)
@@ -541,16 +546,24 @@ func (e *histEnv) step(t []string) (res string) {
 		return strings.Join(out, " ")
 	case "commit":
 		h := atoi(t[1])
+		e.txMu.Lock()
 		if h <= 0 || h >= len(e.txs) || e.txs[h] == nil {
+			e.txMu.Unlock()
 			return "BAD-HANDLE"
 		}
-		return errClass(e.txs[h].Commit(ctx))
+		txh := e.txs[h]
+		e.txMu.Unlock()
+		return errClass(txh.Commit(ctx))
 	case "rollback":
 		h := atoi(t[1])
+		e.txMu.Lock()
 		if h <= 0 || h >= len(e.txs) || e.txs[h] == nil {
+			e.txMu.Unlock()
 			return "BAD-HANDLE"
 		}
-		return errClass(e.txs[h].Rollback(ctx))
+		txh := e.txs[h]
+		e.txMu.Unlock()
+		return errClass(txh.Rollback(ctx))
 	case "gc":
 		if !drainPoolOK() {
 			return "DRAIN-TIMEOUT"
